@@ -181,9 +181,6 @@ def only_importer_deviation(rec_with, rec_without, badset):
     return ta == tb
 
 
-REPAIR_SIG = ("full cleaning turns a file whose raw content is not valid Python into a valid (or empty) program, where "
-              "--cleanup none reports meta/ast/<Error>: tab normalisation, a dangling backslash at the end of the file, removed "
-              "comment lines, or control / Unicode separator characters dropped by the tokenizer")
 ODD_CHARS = set("\x00\x0b\x0c\r\x1c\x1d\x1e\x1f\x85\u2028\u2029\ufeff")
 
 
@@ -209,30 +206,44 @@ def repair_shape(raw):
     return None
 
 
+STRIP_SIG = ("get_program's final strip(): a raw content rejected by ast.parse whose str.strip() is a valid or an empty program "
+             "(indented first line, only U+001C-U+001F / Unicode white space, a last line ending in U+2028 / VT ...) is reported as "
+             "that program, not as meta/ast/<Error> — under both cleanup strategies and by tag")
+
+
+def strip_shape(raw):
+    """The precise predicate of recorded finding F49: the raw text does not parse, but the text `get_program` stores for a
+    hint-free content — `raw.strip()` (blank ends trimmed) — is a valid or an empty program. Nothing else is excused."""
+    return raw_class(raw) not in ("valid", "empty") and raw_class(raw.strip()) in ("valid", "empty")
+
+
+def is_error_record(taxa):
+    return len(taxa) == 1 and taxa[0].startswith("meta/ast/") and taxa[0] != "meta/ast/EmptyProgramError"
+
+
 def raw_content_oracle(ctx, files_read, by_strategy, files):
-    """The property speaks of the file's CONTENT: if the raw text is not valid Python and `--cleanup none` reports it as
-    meta/ast/<Error>, `--cleanup full` must not report a valid (or empty) program."""
-    jn, jf = by_strategy.get("none"), by_strategy.get("full")
-    if jn is None or jf is None:
-        return
-    for p, raw in files_read.items():
-        if raw_class(raw) in ("valid", "empty") or p not in jn["programs"] or p not in jf["programs"]:
-            continue
-        tn, tf = list(jn["programs"][p]["taxa"]), list(jf["programs"][p]["taxa"])
-        is_err = lambda t: len(t) == 1 and t[0].startswith("meta/ast/") and t[0] != "meta/ast/EmptyProgramError"
-        if is_err(tn) and not is_err(tf):
-            shape = repair_shape(raw)  # informative only since fix F48: no shape is tolerated any more
-            ctx.dist(f"raw-oracle.repaired.{shape or 'other'}")
+    """The property speaks of the file's CONTENT: a raw text that `ast.parse` rejects must be reported with the single
+    taxon meta/ast/<Error>, under `--cleanup none` AND under `--cleanup full`. A valid-program or empty-program record is a
+    violation; it carries the signature of F49 exactly when `strip_shape(raw)` holds."""
+    for strategy, js in by_strategy.items():
+        for p, raw in files_read.items():
+            if "paroxython" in raw.lower() or raw_class(raw) in ("valid", "empty") or p not in js["programs"]:
+                continue
+            taxa = list(js["programs"][p]["taxa"])
+            if is_error_record(taxa):
+                ctx.count("raw-content-oracle", (strategy, p, raw), nontrivial=True)
+                continue
+            known = strip_shape(raw)
+            ctx.dist(f"raw-oracle.{strategy}.{'strip-shape' if known else 'OTHER'}")
             ctx.violations.append({
-                "what": f"{p}: the raw content is not valid Python ({raw_class(raw)}), --cleanup none reports {tn[0]}, "
-                        f"--cleanup full reports {'an empty program' if tf == ['meta/ast/EmptyProgramError'] else 'a valid program'}",
-                "signature": None,
-                "replay": {"kind": "raw-content", "files": {p: files[p]}, "shape": shape,
-                           "impl": {"cleanup_none": tn, "cleanup_full": tf[:8], "stored_full": jf["programs"][p]["source"][:300]},
+                "what": f"{p}: the raw content is not valid Python ({raw_class(raw)}) but --cleanup {strategy} reports "
+                        f"{'an empty program' if taxa == ['meta/ast/EmptyProgramError'] else 'a valid program'}",
+                "signature": STRIP_SIG if known else None,
+                "replay": {"kind": "raw-content", "files": {p: files[p]}, "cleanup": strategy, "strip_shape": known,
+                           "shape": repair_shape(raw),
+                           "impl": {"taxa": taxa[:8], "stored": js["programs"][p]["source"][:300]},
                            "model": "the externals are recorded on the stored text: the model cannot see this",
                            "spec": f"single taxon meta/ast/{raw_class(raw)} under both strategies (content that is not valid Python)"}})
-        else:
-            ctx.count("raw-content-oracle", (p, raw), nontrivial=True)
 
 
 def exc_info(e):
@@ -585,6 +596,10 @@ def stream_dirs(ctx, drv, orc, n_dirs):
         ({"a.py": "import b\nx = 1\n", "b.py": "import a\n", "c.py": "def (:)\n"}, ["c.py"]),
         ({"a.py": "x = $\n"}, ["a.py"]),
         ({"a.py": "x = 1\n", "b.py": "# just a comment\n"}, ["b.py"]),
+        # the shapes of recorded finding F49 (get_program's final strip()), one file each
+        ({"a.py": "x = 1\n", "tab_first.py": "\tx = 1\n", "sp_first.py": "  y = 2\nz = 3\n", "seps.py": "\x1c\n \x1d\t\n\x1e\x1f\n",
+          "ls_last.py": "x = 1\u2028\n", "vt_last.py": "w = 0\nx = 1\x0b", "nel_only.py": "\x85\n"},
+         ["tab_first.py", "sp_first.py", "seps.py", "ls_last.py", "vt_last.py", "nel_only.py"]),
         ({"a.py": "x = 1\n", "selftest.py": GUARD_INVALID[0]}, ["selftest.py"]),
         ({"a.py": GUARD_INVALID[1], "b.py": GUARD_INVALID[2], "c.py": GUARD_INVALID[3], "d.py": "import a\n"}, ["a.py", "b.py", "c.py"]),
         ({"a.py": GUARD_INVALID[4], "b.py": GUARD_INVALID[5], "c.py": GUARD_INVALID[6], "d.py": GUARD_INVALID[7], "e.py": "z = 0\n"},
@@ -736,7 +751,8 @@ def stream_tag(ctx, drv, orc, n):
     from paroxython.map_taxonomy import Taxonomy
 
     taxonomy = Taxonomy()
-    texts = list(FIXED_BAD[:8]) + [VALID[0]] + WS_ONLY[:3] + [VALID[-1], UNFLATTENABLE[0], UNFLATTENABLE[3]]
+    texts = list(FIXED_BAD[:8]) + [VALID[0]] + WS_ONLY[:3] + [VALID[-1], UNFLATTENABLE[0], UNFLATTENABLE[3],
+                                                              "\tx = 1\n", "x = 1\u2028\n"]
     while len(texts) < n:
         t, _ = mutate(ctx.rng, ctx.rng.choice(VALID))
         texts.append(t)
@@ -778,6 +794,16 @@ def stream_tag(ctx, drv, orc, n):
             ctx.violations.append({"what": f"`tag` raises {out}", "replay": {
                 "kind": "tag", "source": raw, "impl": out, "model": m, "spec": "tag terminates and reports the program"}})
             continue
+        if ("paroxython" not in raw.lower() and raw_class(raw) not in ("valid", "empty") and isinstance(out["Taxon"], list)
+                and not is_error_record(out["Taxon"])):
+            known = strip_shape(raw)
+            ctx.dist(f"raw-oracle.tag.{'strip-shape' if known else 'OTHER'}")
+            ctx.violations.append({
+                "what": f"tag: the raw content is not valid Python ({raw_class(raw)}) but is reported as "
+                        f"{'an empty' if out['Taxon'] == ['meta/ast/EmptyProgramError'] else 'a valid'} program",
+                "signature": STRIP_SIG if known else None,
+                "replay": {"kind": "tag-raw-content", "source": raw, "strip_shape": known, "impl": {"Taxon": out["Taxon"][:8]},
+                           "model": "the externals are recorded on the stored text", "spec": f"meta/ast/{raw_class(raw)}"}})
         exp = None
         if kind not in ("valid", "features_exc"):
             exp = ["meta/ast/EmptyProgramError"] if kind == "empty" else [f"meta/ast/{kind}"]
@@ -892,10 +918,6 @@ def run(ctx):
     ]
     ctx.assumptions += [
         "texts contain no Paroxython hint comment (property quantifier); nesting below the interpreter's limits",
-        "NOT flagged (same under both strategies, from get_program's final strip(), not from the cleaning): a file whose first "
-        "line is indented ('\\tx = 1': raw IndentationError) is stored stripped and reported valid; a file made only of "
-        "U+001C-U+001F or other Unicode white space (raw SyntaxError) is stored empty and reported meta/ast/EmptyProgramError; "
-        "a line ending with U+2028 / VT is stored without it (notes/findings/C14-full-cleaning-repairs-invalid.md)",
         "ast.parse raises only SyntaxError/ValueError instances whose class name has no colon (ParseCaught)",
     ]
     if (not ctx.proofs_ok or ctx.broken) and not any(v.get("signature") is None for v in ctx.violations):
